@@ -7,6 +7,7 @@ import (
 	"slices"
 	"strconv"
 	"sync"
+	"sync/atomic"
 
 	eth2api "github.com/attestantio/go-eth2-client/api"
 	eth2v1 "github.com/attestantio/go-eth2-client/api/v1"
@@ -209,6 +210,7 @@ type ProposerDuties struct {
 
 // ProposerDutiesForEpoch is a map of proposer duties for specific epoch.
 type ProposerDutiesForEpoch struct {
+	gen           uint64 // value of DutiesCache.invalidations when the fetch started
 	requestedIdxs []eth2p0.ValidatorIndex
 	duties        []eth2v1.ProposerDuty
 	metadata      map[string]any
@@ -225,6 +227,7 @@ type AttesterDuties struct {
 
 // AttesterDutiesForEpoch is a map of attester duties for specific epoch.
 type AttesterDutiesForEpoch struct {
+	gen           uint64 // value of DutiesCache.invalidations when the fetch started
 	requestedIdxs []eth2p0.ValidatorIndex
 	duties        []eth2v1.AttesterDuty
 	metadata      map[string]any
@@ -241,6 +244,7 @@ type SyncDuties struct {
 
 // SyncDutiesForEpoch is a map of sync committee duties for specific epoch.
 type SyncDutiesForEpoch struct {
+	gen           uint64 // value of DutiesCache.invalidations when the fetch started
 	requestedIdxs []eth2p0.ValidatorIndex
 	duties        []eth2v1.SyncCommitteeDuty
 	metadata      map[string]any
@@ -306,6 +310,10 @@ type DutiesCache struct {
 	proposerDuties ProposerDuties
 	attesterDuties AttesterDuties
 	syncDuties     SyncDuties
+
+	// invalidations counts InvalidateCache calls. A beacon node answer fetched before an
+	// invalidation must not be stored after it (it may predate the reorg).
+	invalidations atomic.Uint64
 }
 
 // Trim trims the cache of 3 epochs older than the current.
@@ -324,6 +332,8 @@ func (c *DutiesCache) Trim(epoch eth2p0.Epoch) {
 // The epoch parameter indicates the epoch the chain has reorged back to.
 // Meaning, we should invalidate all duties after that epoch.
 func (c *DutiesCache) InvalidateCache(ctx context.Context, epoch eth2p0.Epoch) {
+	c.invalidations.Add(1)
+
 	invalidated := false
 
 	ok := c.trimAfterProposerDuties(epoch)
@@ -381,6 +391,8 @@ func (c *DutiesCache) ProposerDutiesCache(ctx context.Context, epoch eth2p0.Epoc
 	if len(requestVidxs) == 0 {
 		requestVidxs = slices.Clone(allActive)
 	}
+
+	gen := c.invalidations.Load()
 
 	dutiesForEpoch, ok := c.fetchProposerDuties(epoch)
 	dutiesResult := make([]*eth2v1.ProposerDuty, 0, len(vidxs))
@@ -442,7 +454,7 @@ func (c *DutiesCache) ProposerDutiesCache(ctx context.Context, epoch eth2p0.Epoc
 		dutiesDeref = append(dutiesDeref, d)
 	}
 
-	_, ok = c.storeOrAmendProposerDuties(epoch, ProposerDutiesForEpoch{duties: dutiesDeref, metadata: eth2Resp.Metadata, requestedIdxs: requestVidxs})
+	_, ok = c.storeOrAmendProposerDuties(epoch, ProposerDutiesForEpoch{gen: gen, duties: dutiesDeref, metadata: eth2Resp.Metadata, requestedIdxs: requestVidxs})
 	if !ok {
 		log.Debug(ctx, "Failed to cache proposer duties - another routine already cached duties for this epoch, skipping", z.U64("epoch", uint64(epoch)))
 	}
@@ -476,6 +488,8 @@ func (c *DutiesCache) AttesterDutiesCache(ctx context.Context, epoch eth2p0.Epoc
 	if len(requestVidxs) == 0 {
 		requestVidxs = slices.Clone(allActive)
 	}
+
+	gen := c.invalidations.Load()
 
 	dutiesForEpoch, ok := c.fetchAttesterDuties(epoch)
 	dutiesResult := make([]*eth2v1.AttesterDuty, 0, len(vidxs))
@@ -537,7 +551,7 @@ func (c *DutiesCache) AttesterDutiesCache(ctx context.Context, epoch eth2p0.Epoc
 		dutiesDeref = append(dutiesDeref, d)
 	}
 
-	_, ok = c.storeOrAmendAttesterDuties(epoch, AttesterDutiesForEpoch{duties: dutiesDeref, metadata: eth2Resp.Metadata, requestedIdxs: requestVidxs})
+	_, ok = c.storeOrAmendAttesterDuties(epoch, AttesterDutiesForEpoch{gen: gen, duties: dutiesDeref, metadata: eth2Resp.Metadata, requestedIdxs: requestVidxs})
 	if !ok {
 		log.Debug(ctx, "Failed to cache attester duties - another routine already cached duties for this epoch, skipping", z.U64("epoch", uint64(epoch)))
 	}
@@ -571,6 +585,8 @@ func (c *DutiesCache) SyncCommDutiesCache(ctx context.Context, epoch eth2p0.Epoc
 	if len(requestVidxs) == 0 {
 		requestVidxs = slices.Clone(allActive)
 	}
+
+	gen := c.invalidations.Load()
 
 	dutiesForEpoch, ok := c.fetchSyncDuties(epoch)
 	dutiesResult := make([]*eth2v1.SyncCommitteeDuty, 0, len(vidxs))
@@ -632,7 +648,7 @@ func (c *DutiesCache) SyncCommDutiesCache(ctx context.Context, epoch eth2p0.Epoc
 		dutiesDeref = append(dutiesDeref, d)
 	}
 
-	_, ok = c.storeOrAmendSyncDuties(epoch, SyncDutiesForEpoch{duties: dutiesDeref, metadata: eth2Resp.Metadata, requestedIdxs: requestVidxs})
+	_, ok = c.storeOrAmendSyncDuties(epoch, SyncDutiesForEpoch{gen: gen, duties: dutiesDeref, metadata: eth2Resp.Metadata, requestedIdxs: requestVidxs})
 	if !ok {
 		log.Debug(ctx, "Failed to cache sync duties - another routine already cached duties for this epoch, skipping", z.U64("epoch", uint64(epoch)))
 	}
@@ -718,6 +734,10 @@ func (c *DutiesCache) storeOrAmendProposerDuties(epoch eth2p0.Epoch, dutiesForEp
 	c.proposerDuties.Lock()
 	defer c.proposerDuties.Unlock()
 
+	if c.invalidations.Load() != dutiesForEpoch.gen {
+		return nil, false // fetched before a reorg invalidation: possibly stale, do not cache
+	}
+
 	alreadySavedDuties, ok := c.proposerDuties.duties[epoch]
 	if !ok {
 		c.proposerDuties.duties[epoch] = dutiesForEpoch.duties
@@ -765,6 +785,10 @@ func (c *DutiesCache) storeOrAmendProposerDuties(epoch eth2p0.Epoch, dutiesForEp
 func (c *DutiesCache) storeOrAmendAttesterDuties(epoch eth2p0.Epoch, dutiesForEpoch AttesterDutiesForEpoch) ([]eth2v1.AttesterDuty, bool) {
 	c.attesterDuties.Lock()
 	defer c.attesterDuties.Unlock()
+
+	if c.invalidations.Load() != dutiesForEpoch.gen {
+		return nil, false // fetched before a reorg invalidation: possibly stale, do not cache
+	}
 
 	alreadySavedDuties, ok := c.attesterDuties.duties[epoch]
 	if !ok {
@@ -814,6 +838,10 @@ func (c *DutiesCache) storeOrAmendAttesterDuties(epoch eth2p0.Epoch, dutiesForEp
 func (c *DutiesCache) storeOrAmendSyncDuties(epoch eth2p0.Epoch, dutiesForEpoch SyncDutiesForEpoch) ([]eth2v1.SyncCommitteeDuty, bool) {
 	c.syncDuties.Lock()
 	defer c.syncDuties.Unlock()
+
+	if c.invalidations.Load() != dutiesForEpoch.gen {
+		return nil, false // fetched before a reorg invalidation: possibly stale, do not cache
+	}
 
 	alreadySavedDuties, ok := c.syncDuties.duties[epoch]
 	if !ok {
